@@ -146,9 +146,10 @@ def run(res, tier):
     res.note("rule", "a case is one design (canonical text of its used signals and statements): the fixed shapes, "
              "a sample (quick) or all (thorough) of the %d chain cells src->X.v1; X.v2->Y.w1; Y.w2->sink over "
              "overlapping view pairs of 4/8-bit and struct signals at three hierarchy placements, and seeded "
-             "legal-biased random statement sets (<=4 connects, <=2 writing blocks, 2-3 hierarchy levels, 30%% "
-             "mutated); every design is elaborated for every statement permutation x side flip up to the cap"
-             % ncells)
+             "legal-biased random statement sets (<=4 connects, <=2 writing blocks, 2-3 hierarchy levels, 40%% "
+             "mutated) and the designs with connections of C09's defect grid (quick: 90 of them); all are classified "
+             "by Elab.tla, those without defects are elaborated for every statement permutation x side flip up to "
+             "the cap and simulated" % ncells)
     res.assume("designs whose permutations x flips exceed the cap (%d) are sampled (identity and reversal always "
                "included)" % cap)
     res.assume("two overlapping members of one signal that are both driven by one net are two drivers of the shared "
